@@ -50,6 +50,8 @@ func biasFor(prop string) map[string]int {
 	}
 	switch prop {
 	case "C02":
+		b["sweep"] = 40
+		b["dseq.prefix-family"] = 30
 		b["WithdrawLease"] = 14
 		b["DepositDeployment"] = 8
 		b["CreateLease"] = 16
@@ -58,6 +60,9 @@ func biasFor(prop string) map[string]int {
 		b["CloseBid"] = 9
 		b["CloseDeployment"] = 8
 	case "C06":
+		b["dseq.prefix-family"] = 70
+		b["CreateLease"] = 16
+		b["WithdrawLease"] = 10
 		b["fault.wrongsigner"] = 25
 		b["fault.dup"] = 8
 		b["CreateCertificate"] = 3
@@ -66,6 +71,9 @@ func biasFor(prop string) map[string]int {
 		b["SignProviderAttributes"] = 5
 		b["DeleteProviderAttributes"] = 3
 	case "C07":
+		b["attrs.case-variants"] = 1
+		b["cert.replay-foreign"] = 30
+		b["CreateCertificate"] = 6
 		b["SignProviderAttributes"] = 12
 		b["DeleteProviderAttributes"] = 8
 		b["CreateCertificate"] = 2
@@ -97,24 +105,94 @@ func biasFor(prop string) map[string]int {
 	return b
 }
 
+// txRunner delivers one generated operation and runs the armed checker on the result.
+type txRunner struct {
+	r    *core.Run
+	w    *World
+	L    *Ledger
+	chk  *checkerSet
+	g    *gen
+	snap *Snap
+	ntx  int
+}
+
+func (t *txRunner) deliver(op *Op, txb []byte, dup bool) *core.Violation {
+	r, w := t.r, t.w
+	r.Step++
+	t.ntx++
+	r.Ops++
+	all := w.Deliver(txb)
+	after := w.TakeSnap(w.Primary())
+	c := &TxCtx{W: w, Op: op, Before: t.snap, After: after, Res: all[0], All: all, Height: w.Height, Dup: dup, OK: all[0].Code == 0, L: t.L}
+	r.Count("op:" + op.Kind)
+	outcome := "ok"
+	if !c.OK {
+		outcome = fmt.Sprintf("%s/%d", c.Res.Codespace, c.Res.Code)
+		r.Count("result:rejected")
+		r.Count("rej:" + op.Kind + ":" + outcome)
+	} else {
+		r.Count("result:ok")
+		r.Count("ok:" + op.Kind)
+	}
+	if op.Wrong && !dup {
+		r.Count("fault:wrong-signer")
+	}
+	if c.Res.Codespace == "sdk" && c.Res.Code == 11 {
+		r.Count("fault:out-of-gas-abort")
+	}
+	if len(DiffRaw(t.snap, after)) > 0 {
+		r.Mutating++
+	}
+	r.Logf("h=%d tx#%d %s signer=%s%s%s -> %s %s", w.Height, t.ntx, describeOp(w, op), op.Signer.Name, flag(op.Wrong, " WRONGSIGNER"),
+		flag(dup, " DUPLICATE"), outcome, shortLog(c.Res))
+	r.Abstract(op.Kind + "|" + outcome + "|" + after.Abstract())
+	t.L.Apply(c)
+	if v := t.chk.AfterTx(c); v != nil {
+		return v
+	}
+	t.snap = after
+	t.g.s = after
+	return nil
+}
+
+// sign builds the transaction of an operation with the signer's current sequence.
+func (t *txRunner) sign(op *Op) ([]byte, bool) {
+	if op.Signer == nil {
+		op.Signer = op.Required
+	}
+	if op.Gas == 0 {
+		op.Gas = 2000000
+	}
+	txb, err := t.w.SignTx([]sdk.Msg{op.Msg}, op.Signer, t.w.Sequence(op.Signer), op.Gas)
+	if err != nil {
+		t.r.Count("op-unsignable")
+		return nil, false
+	}
+	return txb, true
+}
+
 func (e Engine) Execute(r *core.Run) *core.Violation {
 	nrep := 1
 	if r.Property == "C07" {
 		nrep = 2 + r.Choose(2, "knob.replicas")
 	}
+	bias := biasFor(r.Property)
+	if bias["sweep"] > 0 && r.Bool(bias["sweep"], "knob.sweep") {
+		return e.executeSweep(r, bias)
+	}
 	w := NewWorld(r, nrep)
 	L := NewLedger(w)
 	chk := newChecker(r.Property, w)
-	g := &gen{w: w, bias: biasFor(r.Property)}
+	g := &gen{w: w, bias: bias}
+	t := &txRunner{r: r, w: w, L: L, chk: chk, g: g}
 
 	maxTx := 20 + r.Choose(100, "knob.maxtx")
 	if r.Tier == "thorough" {
 		maxTx = 20 + r.Choose(160, "knob.maxtx")
 	}
-	ntx := 0
 	var lastTx []byte
 	var lastOp *Op
-	for ntx < maxTx {
+	for t.ntx < maxTx {
 		// height gap: empty blocks before this one
 		r.Mark()
 		gap := 0
@@ -129,11 +207,11 @@ func (e Engine) Execute(r *core.Run) *core.Violation {
 			}
 		}
 		w.BeginBlock(6 * time.Second)
-		snap := w.TakeSnap(w.Primary())
-		w.blockStart = snap
-		g.s = snap
+		t.snap = w.TakeSnap(w.Primary())
+		w.blockStart = t.snap
+		g.s = t.snap
 		n := 1 + r.Weighted([]int{5, 3, 2, 1, 1}, "blk.ntx")
-		for i := 0; i < n && ntx < maxTx; i++ {
+		for i := 0; i < n && t.ntx < maxTx; i++ {
 			var op *Op
 			var txb []byte
 			dup := false
@@ -144,53 +222,17 @@ func (e Engine) Execute(r *core.Run) *core.Violation {
 				r.Count("fault:duplicate-tx")
 			} else {
 				op = g.NextOp()
-				seq := w.Sequence(op.Signer)
-				var err error
-				txb, err = w.SignTx([]sdk.Msg{op.Msg}, op.Signer, seq, op.Gas)
-				if err != nil {
-					// a message that cannot even be encoded/signed is not a transaction
-					r.Count("op-unsignable")
+				var ok bool
+				if txb, ok = t.sign(op); !ok {
 					continue
 				}
 			}
 			if skip {
 				continue
 			}
-			r.Step++
-			ntx++
-			r.Ops++
-			all := w.Deliver(txb)
-			after := w.TakeSnap(w.Primary())
-			c := &TxCtx{W: w, Op: op, Before: snap, After: after, Res: all[0], All: all, Height: w.Height, Dup: dup, OK: all[0].Code == 0, L: L}
-			r.Count("op:" + op.Kind)
-			outcome := "ok"
-			if !c.OK {
-				outcome = fmt.Sprintf("%s/%d", c.Res.Codespace, c.Res.Code)
-				r.Count("result:rejected")
-				r.Count("rej:" + op.Kind + ":" + outcome)
-			} else {
-				r.Count("result:ok")
-				r.Count("ok:" + op.Kind)
-			}
-			if op.Wrong && !dup {
-				r.Count("fault:wrong-signer")
-			}
-			if c.Res.Codespace == "sdk" && c.Res.Code == 11 {
-				r.Count("fault:out-of-gas-abort")
-			}
-			changed := len(DiffRaw(snap, after)) > 0
-			if changed {
-				r.Mutating++
-			}
-			r.Logf("h=%d tx#%d %s signer=%s%s%s -> %s %s", w.Height, ntx, describeOp(w, op), op.Signer.Name, flag(op.Wrong, " WRONGSIGNER"),
-				flag(dup, " DUPLICATE"), outcome, shortLog(c.Res))
-			r.Abstract(op.Kind + "|" + outcome + "|" + after.Abstract())
-			L.Apply(c)
-			if v := chk.AfterTx(c); v != nil {
+			if v := t.deliver(op, txb, dup); v != nil {
 				return v
 			}
-			snap = after
-			g.s = snap
 			lastTx, lastOp = txb, op
 		}
 		// crash before commit / restart
